@@ -1,52 +1,76 @@
 /-
 C08 — Behaviour depends on the byte stream, not on how it is cut into input calls.
-Property theorems only; helper lemmas in ScpiVerif/Lemmas/Chunking.lean.
+Property theorems only; helper lemmas in ScpiVerif/Lemmas/Chunking*.lean, vocabulary
+(`Observable`, `NoQuotes`, `NoCR`, `Fits`) in ScpiVerif/Spec/Chunking.lean (this namespace).
 
 PARTIAL: the full statement is FALSE for the library as it is (known finding, DESIGN.md section 8 #10):
 the scan of SCPI_Input for a message terminator knows about definite-length blocks but not about quoted
 strings, so a line terminator inside a quoted string (or after an unterminated quote) ends the message
 when the stream arrives in pieces and not when it arrives whole.  `chunking_counterexample` proves the
-negation on a concrete stream; `input_split_partial` / `chunking_invariant_partial` prove the statement
-for streams without quote characters.
+negation on a concrete stream.  A second, benign difference: a chunk boundary between the CR and the LF
+of a CR LF terminator makes the LF an (empty) message of its own (`chunking_crlf_difference`).
 -/
 import ScpiVerif.Model.Ctx
+import ScpiVerif.Spec.Chunking
 import ScpiVerif.Lemmas.Chunking
 
 namespace ScpiVerif.Props.C08
 open ScpiVerif ScpiVerif.Ctx ScpiVerif.Lexer
 
-/-- what the property compares: handler invocations with their parameters, errors, messages parsed (all in
-`events`, without the per-call return-value markers), output bytes, flushes, registers, error queue,
-and the unconsumed remainder -/
-def Observable (c : Ctx) : List Ev × Bytes × Nat × List Regs.Reg × Fifo.SpecQ × Bytes :=
-  (c.events.filter (fun e => match e with | .input _ => false | _ => true),
-   c.out.written, c.out.flushes, c.regs.regs, Fifo.EQ.abs c.eq, c.buf.take c.position)
-
-def NoQuotes (s : Bytes) : Prop := ∀ b ∈ s, b ≠ 34 ∧ b ≠ 39
-
-/-- the stream never leaves more unterminated data pending than the input buffer holds -/
-def Fits (c : Ctx) (n : Nat) : Prop := c.position + n + 1 ≤ c.bufLen
+-- `Observable`, `NoQuotes`, `NoCR`, `Fits` are defined in ScpiVerif/Spec/Chunking.lean (this namespace)
 
 /-
-NOT YET PROVED (and false without the hypothesis on quotes, see chunking_counterexample):
+NOT YET PROVED:
+
+(1) the model lemma `Lemmas.Chunking.ParseLocal` (ScpiVerif/Lemmas/ChunkingDefs.lean): SCPI_Parse of a
+    message that ends in a line feed does not depend on the buffer bytes BEHIND the message.  It is an
+    explicit hypothesis `hloc` of the three `_partial` theorems below; everything else they need is proved.
+    (It is a statement about the model, not about the stream.  Lemmas/Isolation.lean proves the analogous
+    fact when a common NUL follows the message in both buffers; between two chunkings there is no such NUL:
+    `input c (a ++ b)` parses the first message in `pending ++ a ++ b ++ [0] …`, `input (input c a) b` in
+    `pending ++ a ++ [0] …`.)  A colleague proves it as `theorem parseLocal : ParseLocal` in
+    Lemmas/ParseLocal.lean; the hypothesis is then discharged here.
+
+(2) the unrestricted statement, which is FALSE without the hypotheses on quotes and CR
+    (chunking_counterexample, chunking_crlf_difference):
 
 theorem chunking_invariant (c : Ctx) (h : WF c) (cs cs' : List Bytes)
     (hne : (∀ x ∈ cs, x ≠ []) ∧ (∀ x ∈ cs', x ≠ [])) (hs : cs.flatten = cs'.flatten) (hfit : Fits c cs.flatten.length) :
     Observable (cs.foldl input c) = Observable (cs'.foldl input c)
 -/
 
-/-- splitting one chunk in two changes nothing observable (streams without quote characters) -/
-theorem input_split_partial (c : Ctx) (h : WF c) (a b : Bytes) (ha : a ≠ []) (hb : b ≠ [])
-    (hfit : Fits c (a.length + b.length)) (hq : NoQuotes (c.buf.take c.position ++ a ++ b)) :
+/-- splitting one chunk in two changes nothing observable, for streams (pending bytes included) without
+quote characters and without CR — definite-length blocks, with any bytes other than those three in their
+data, are covered.  `hloc`: open obligation (1) above. -/
+theorem input_split_partial (hloc : Lemmas.Chunking.ParseLocal) (c : Ctx) (h : WF c) (a b : Bytes) (ha : a ≠ []) (hb : b ≠ [])
+    (hfit : Fits c (a.length + b.length)) (hq : NoQuotes (c.buf.take c.position ++ a ++ b))
+    (hcr : NoCR (c.buf.take c.position ++ a ++ b)) :
     Observable (input (input c a) b) = Observable (input c (a ++ b)) :=
-  Lemmas.Chunking.input_split_partial c h a b ha hb hfit hq
+  Lemmas.Chunking.input_split_partial hloc c h a b ha hb hfit hq hcr
 
-/-- hence every partition of a stream into non-empty chunks behaves like feeding it whole, and
-therefore like feeding it one byte at a time -/
-theorem chunking_invariant_partial (c : Ctx) (h : WF c) (cs : List Bytes) (hne : ∀ x ∈ cs, x ≠ []) (hcs : cs ≠ [])
-    (hfit : Fits c cs.flatten.length) (hq : NoQuotes (c.buf.take c.position ++ cs.flatten)) :
+/-- hence every partition of such a stream into non-empty chunks behaves like feeding it whole, and
+therefore like feeding it one byte at a time.  `hloc`: open obligation (1) above. -/
+theorem chunking_invariant_partial (hloc : Lemmas.Chunking.ParseLocal) (c : Ctx) (h : WF c) (cs : List Bytes)
+    (hne : ∀ x ∈ cs, x ≠ []) (hcs : cs ≠ [])
+    (hfit : Fits c cs.flatten.length) (hq : NoQuotes (c.buf.take c.position ++ cs.flatten))
+    (hcr : NoCR (c.buf.take c.position ++ cs.flatten)) :
     Observable (cs.foldl input c) = Observable (input c cs.flatten) :=
-  Lemmas.Chunking.chunking_invariant_partial c h cs hne hcs hfit hq
+  Lemmas.Chunking.chunking_invariant_partial hloc c h cs hne hcs hfit hq hcr
+
+/-- the statement (2) itself, with the two hypotheses on the stream added.  `hloc`: open obligation (1) above. -/
+theorem chunking_invariant_noquote_nocr (hloc : Lemmas.Chunking.ParseLocal) (c : Ctx) (h : WF c) (cs cs' : List Bytes)
+    (hne : (∀ x ∈ cs, x ≠ []) ∧ (∀ x ∈ cs', x ≠ [])) (hs : cs.flatten = cs'.flatten) (hcs : cs ≠ [])
+    (hfit : Fits c cs.flatten.length) (hq : NoQuotes (c.buf.take c.position ++ cs.flatten))
+    (hcr : NoCR (c.buf.take c.position ++ cs.flatten)) :
+    Observable (cs.foldl input c) = Observable (cs'.foldl input c) :=
+  Lemmas.Chunking.chunking_invariant_clean hloc c h cs cs' hne hs hcs hfit hq hcr
+
+/-- the part of the argument that does not depend on (1): when the scan of SCPI_Input finds a complete
+message in the pending bytes `s`, it finds the same message when more bytes `y` follow — the decision was
+taken by bytes that are present in `s` -/
+theorem scan_prefix_stable (s y : Bytes) (k : Nat) (hq : NoQuotes (s ++ y)) (hcr : NoCR (s ++ y))
+    (h : Lemmas.Chunking.scan s = some k) : Lemmas.Chunking.scan (s ++ y) = some k :=
+  Lemmas.Chunking.good_clean.stable s y k ⟨hq, hcr⟩ h
 
 /-- a zero-length call executes whatever is buffered as one complete message and empties the buffer -/
 theorem flush_executes_pending (c : Ctx) (h : WF c) :
@@ -63,6 +87,25 @@ theorem chunking_counterexample :
     let c := Ctx.init cmds [] 64 4 true
     let s : Bytes := [84, 88, 84, 32, 34, 97, 10, 98, 34, 10]                          -- TXT "a\nb"\n
     Observable (input c s) ≠ Observable (input (input c (s.take 7)) (s.drop 7)) := by
-  decide +kernel
+  -- (the instance search does not find `DecidableEq` for the six-fold product: compare the event logs)
+  intro cmds c s h
+  have h1 := congrArg Prod.fst h
+  revert h1
+  simp only [Observable]
+  decide +kernel +zetaReduce
+
+/-- second difference, benign: `A 1<CR><LF>` fed whole is one message ending in CR LF; cut between CR
+and LF, the CR ends the message and the LF is parsed as an empty message of its own.  The handler
+runs once with the same parameter in both cases; only the `parseMsg` events differ. -/
+theorem chunking_crlf_difference :
+    let cmds : List Cmd := [⟨[65], 2, [.pInt 32 true false]⟩]                           -- pattern "A", reads one optional int
+    let c := Ctx.init cmds [] 64 4 true
+    let s : Bytes := [65, 32, 49, 13, 10]                                               -- A 1\r\n
+    (input c s).events =
+      [.parseMsg [65, 32, 49, 13, 10], .handler 2 [65], .pInt true 1, .input true] ∧
+    (input (input c (s.take 4)) (s.drop 4)).events =
+      [.parseMsg [65, 32, 49, 13], .handler 2 [65], .pInt true 1, .input true, .parseMsg [10], .input true] := by
+  intro cmds c s
+  decide +kernel +zetaReduce
 
 end ScpiVerif.Props.C08
